@@ -1,12 +1,13 @@
 (* C13 - lines are parsed by the IRC grammar, and relays re-parse identically.  Statements only;
-   proofs in IRCP.RoundP and IRCP.ParseP.  Framing (several lines per segment, split lines, the
-   length limit) and the CRLF termination of emitted lines are decided per run by the
-   segmentation-pair and CRLF oracles of the correspondence check (L2): the LinesCodec is not
-   modelled in Coq.  The agreement of the tokenizer with the grammar for lines with arbitrary
+   proofs in IRCP.RoundP, IRCP.ParseP and IRCP.FrameP.  The framing model (Frame.v: split at LF,
+   strip one CR, the 2000-byte limit) is the one the extracted program runs on every raw-byte
+   trace against the real LinesCodec; the CRLF termination of emitted lines is decided per run
+   by the CRLF oracle (L2).  The agreement of the tokenizer with the grammar for lines with arbitrary
    blank runs is decided per run against an independent statement of the grammar (L2). *)
 From IRC Require Import Str Wild Glob Parse Reply State Handlers Step.
-From IRCP Require Import RoundP ParseP.
-From Coq Require Import List.
+From IRC Require Import Frame.
+From IRCP Require Import RoundP ParseP FrameP.
+From Coq Require Import List Arith Lia.
 Import ListNotations.
 
 (* every message that comes out of the tokenizer has a command and middle parameters that are
@@ -54,6 +55,27 @@ Theorem C13_specific_error : forall m v e,
   command_of_message m = inr e -> specific e.
 Proof. exact enough_params_specific. Qed.
 
+(* framing does not depend on how the byte stream is cut into TCP segments: feeding a then b (the
+   pending bytes carried over) frames exactly what feeding a ++ b frames - several lines per
+   segment, lines split across segments, any cut; once a line exceeds the limit the connection is
+   closed and nothing after it is framed, however the bytes arrived *)
+Theorem C13_segmentation_invariant : forall pending a b,
+  let '(f1, r1) := feed pending a in
+  let '(f2, r2) := feed r1 b in
+  let '(f, r) := feed pending (a ++ b) in
+  if closed f1 then f = f1 else (f = f1 ++ f2 /\ r = r2).
+Proof. exact feed_split. Qed.
+
+(* an over-long line is reported as such and never as a line: no part of it is executed *)
+Theorem C13_overlong_not_executed : forall ls l rest,
+  (length l > max_len)%nat -> Forall (fun x => (length x <= max_len)%nat) ls ->
+  frames_of (ls ++ l :: rest) [] = List.map (fun x => FLine (strip_cr x)) ls ++ [FTooLong].
+Proof.
+  intros ls l rest Hl Hs. induction ls as [|x ls IH]; cbn [app frames_of List.map].
+  - destruct (Nat.leb_spec (length l) max_len); [lia|reflexivity].
+  - inversion Hs; subst. destruct (Nat.leb_spec (length x) max_len); [|lia]. now rewrite IH.
+Qed.
+
 Section C13.
 Context (cfg : config) (verify : str -> str -> bool) (i : nat).
 
@@ -86,3 +108,5 @@ Print Assumptions C13_specific_error.
 Print Assumptions C13_error_is_inert.
 Print Assumptions C13_empty_ignored.
 Print Assumptions C13_error_numerics.
+Print Assumptions C13_segmentation_invariant.
+Print Assumptions C13_overlong_not_executed.
